@@ -199,13 +199,18 @@ def gen_file(rng, path, pats, mode, regime, digits_ok=True):
             "shared_lines": shared}
 
 
-def gen_overlap_file(rng, path, regime):
-    """A file with the two bare patterns {version}, {pep440_version} and several occurrences per line."""
+def gen_overlap_file(rng, path, regime, marker=None):
+    """A file with the two bare patterns {version}, {pep440_version} and several occurrences per line.
+    With a marker: a first pattern `@kN pkg {version} (see {version})` whose matches enclose two matches of the bare
+    {version} pattern each (and matches of the second bare pattern inside those)."""
     sep = {"lf": "\n", "crlf": "\r\n", "cr": "\r"}[regime]
     joins = [" and ", " (pip install pkg==", "; the docs of ", ", see ", " / "]
     heads = ["Release ", "Install: pkg==", "* ", "latest = ", "(", ""]
     tails = ["", " is out.", ")", " are listed below.", ";"]
     kinds = ["{version}", "{pep440_version}"]
+    outer = None
+    if marker is not None:
+        outer = "%s pkg {version} (see {version})" % marker
     rows = [["{version}"], ["{pep440_version}"]]
     for _ in range(rng.randint(1, 4)):
         rows.append([rng.choice(kinds) for _ in range(rng.choice([1, 2, 2, 3]))])
@@ -232,10 +237,22 @@ def gen_overlap_file(rng, path, regime):
         lines.append({"segs": segs, "end": sep})
         if rng.random() < 0.3:
             lines.append({"segs": [filler(rng, "plain", False)], "end": sep})
+    patterns = list(kinds)
+    if outer is not None:
+        # pattern indices of the slots written so far move up by one
+        for ln in lines:
+            for sg in ln["segs"]:
+                if not isinstance(sg, str):
+                    sg["pat"] += 1
+        patterns = [outer] + patterns
+        for _ in range(rng.choice([1, 1, 2])):
+            row = {"segs": [filler(rng, "plain", False) + " " + marker + " pkg ", {"slot": "{version}", "pat": 0}, " (see ",
+                            {"slot": "{version}", "pat": 0}, ")" + rng.choice(["", " now", ";"])], "end": sep}
+            lines.insert(rng.randint(0, len(lines)), row)
     if rng.random() < 0.3:
         lines[-1]["end"] = ""
-    return {"path": path, "patterns": list(kinds), "lines": lines, "regime": regime, "shared_lines": sum(1 for r in rows if len(r) > 1),
-            "bare": True, "overlap": True}
+    return {"path": path, "patterns": patterns, "lines": lines, "regime": regime, "shared_lines": sum(1 for r in rows if len(r) > 1),
+            "bare": True, "overlap": True, "nested": outer is not None}
 
 
 def config_glob_key(syntax, kind="glob"):
@@ -318,7 +335,11 @@ def gen_project(rng, mode="plain", syntaxes=None, allow_mixed=True, max_files=4,
     if pep_ok and not legacy and vpattern.startswith("v") and pep_friendly(vpattern) and rng.random() < 0.14 and \
             (vpattern[1:5] in ("YYYY", "GGGG") or not (set(rp.fields_of(tree)) & {"tag", "pytag"})):
         opath = rng.choice([p for p in ["docs/overview.md", "USAGE.md", "site/install.txt"] if p not in paths])
-        files.append(gen_overlap_file(rng, opath, rng.choice(["lf", "lf", "crlf", "cr"])))
+        nest = None
+        if rng.random() < 0.5:
+            nest = "@k%d" % marker
+            marker += 1
+        files.append(gen_overlap_file(rng, opath, rng.choice(["lf", "lf", "crlf", "cr"]), nest))
     # a group of files reached only through one recursive glob, at several depths and through dot-directories
     if allow_glob and not ini and rng.random() < 0.15:
         gpaths = rng.sample(["top.ver", "src/pkg/sub/deep/x.ver", ".hidden/y.ver", "src/.dot.ver", "src/one.ver"], rng.randint(2, 4))
@@ -404,6 +425,13 @@ def gen_project(rng, mode="plain", syntaxes=None, allow_mixed=True, max_files=4,
                     fb["lines"][-1]["end"] = sep
                 fb["lines"].append({"segs": [unescape(pre), {"slot": region2, "pat": idx}, unescape(suf)], "end": end})
                 fb["twin_context"] = True
+    if rng.random() < 0.015:
+        # a generated / minified file: one occurrence sits on a line of more than 128 KiB
+        cands = [(f, ln) for f in files if not f.get("overlap") for ln in f["lines"] if any(not isinstance(sg, str) for sg in ln["segs"])]
+        if cands:
+            f, ln = rng.choice(cands)
+            ln["segs"] = ["x = [" + "0xfe, " * rng.choice([22000, 30000, 45000]) + "]; "] + ln["segs"]
+            f["huge_line"] = True
     has_twin_pair = False
     if twin_pair and pep_ok and not legacy and pep_friendly(vpattern) and rng.random() < 0.12:
         # the pair `bumpver init` writes for setup.py: the same literal context around {version} and around {pep440_version}
